@@ -15,22 +15,25 @@ ID = 'C15'
 LEAN_MODULES = ['Cellml.Props.C15']
 N = {'quick': 10, 'thorough': 60}
 SEEDS = {'quick': 8, 'thorough': 64}
-RULE = ('cases = every file of tests/cellml_files (the 25 that load: all hash seeds and XML-level element permutations; '
-        'the 25 that are refused: 2 seeds, outcome class only) + N documents from harness/docgen.py (2-7 components, '
-        '4-9 signals of which at least 3 are initial-value constants so that the iteration of transform_constants has '
-        'something to reorder, states, relay chains with unit conversions). Every case is loaded in SEPARATE python '
-        'processes, one per PYTHONHASHSEED (quick 8, thorough 64; seed 0 = randomisation off, the others drawn from '
-        'the case rng), each process dumping variables(), equations, the sorted and unsorted role queries, graph '
-        'nodes and get_equations_for of every variable; 9 permuted spellings of the document (units, components, '
-        'variables, groups, connections, connection ends, <math> elements, equations inside <math>, interleaved '
-        'top level) are loaded under 2 seeds each. non-trivial = loads, >= 2 equations added by transform_constants, '
-        '>= 2 distinct seeds; distinct = distinct document text')
+RULE = ('cases = every file of tests/cellml_files (the four big models a case each, the small ones sharing their '
+        'interpreters in one case; the ones that load: all hash seeds + 9 XML-level element permutations; the refused '
+        'ones: 2 seeds, outcome class only) + the witnesses of findings/C15.json + N documents from harness/docgen.py '
+        '(2-7 components, 4-9 signals, relay chains with unit conversions, states, plus 3-7 extra initial-value '
+        'constants so that the loop of transform_constants has something to reorder). Every text is loaded in '
+        'SEPARATE python processes, one per PYTHONHASHSEED (quick 8, thorough 64; seed 0 = randomisation off, the '
+        'others drawn from the case rng; x4 in the quick tier when setscan.py finds a set iteration the model does '
+        'not know), each dumping variables(), equations, the sorted and unsorted role queries, graph nodes/edges and '
+        'get_equations_for (all variables; recursive, direct, with and without units); 9 permuted spellings (units, '
+        'components, variables, groups, connections + map_variables, connection ends, <math> elements, equations '
+        'inside <math>, interleaved top level) are loaded under 1-2 seeds and compared under PERM_RULES. '
+        'non-trivial = loads, >= 2 equations added by transform_constants, >= 2 processes; distinct = distinct case')
 TRUSTED = ['Lean 4.33 kernel', 'axioms: propext, Classical.choice, Quot.sound',
            'correspondence harness harness/props/c15.py + docgen.py + setscan.py',
-           'CPython: PYTHONHASHSEED is the only source of per-process variation of set iteration order for str-keyed '
-           'hashes; SymPy Dummy hashes are functions of (name, dummy_index), both deterministic per process',
+           'CPython/SymPy: what varies between two processes is the iteration order of sets (str hashes follow '
+           'PYTHONHASHSEED; SymPy Dummy hashes also mix a per-process random dummy_index base, so a fixed '
+           'PYTHONHASHSEED alone does NOT pin the order of a set of Variables) - dicts, lists, deques are ordered',
            'networkx lexicographical_topological_sort / ancestors are modelled (C09), not verified',
-           'SymPy (which references survive simplification) is observed, not modelled']
+           'SymPy (which references survive simplification, str of an equation) is observed, not modelled']
 ASSUMPTIONS = ['hash randomisation is a runtime phenomenon: the theorems cover every order the runtime could choose AT THE '
                'MODELLED SITES (harness/setscan.py re-lists the sites on every run and reports any new one as drift)',
                'str keys of graph nodes are pairwise distinct (variable names are unique per model, component and variable '
